@@ -171,6 +171,7 @@ type Case struct {
 	QTmpl      string   `json:"qtmpl,omitempty"` // query with placeholders for the comparison thresholds (generator only)
 	ThI        string   `json:"th_i,omitempty"`
 	ThO        string   `json:"th_o,omitempty"`
+	Aggs       *AggQ    `json:"aggs,omitempty"` // the aggregators of the query as parsed (a second parse, not the planned chain)
 	Pipes      []string `json:"pipes"`  // kinds of the pipeline stages of the parsed query, before the split
 	Absent     bool     `json:"absent"` // the range aggregation is absent_over_time
 	CrashStage int      `json:"crash_stage"`
@@ -182,6 +183,79 @@ type Case struct {
 type PFH struct {
 	S string `json:"s"`
 	H uint64 `json:"h"`
+}
+
+// the aggregators of the query as PARSED (round 8): read off a second parse of the query text, never off the planned chain;
+// model/InternalEnginePlan.v (plan_aggs) says which stages, in which order, they become
+type BWQ struct {
+	By    bool     `json:"by"`
+	Names []string `json:"names"`
+}
+type CmpQ struct {
+	Op  string `json:"op"`
+	Val string `json:"val"` // %x
+}
+type RangeQ struct {
+	Fn     string `json:"fn"`
+	Unwrap bool   `json:"unwrap"`
+	Dur    int64  `json:"dur"`
+	Pre    *BWQ   `json:"pre,omitempty"`
+	Suf    *BWQ   `json:"suf,omitempty"`
+	Cmp    *CmpQ  `json:"cmp,omitempty"`
+}
+type AggQ struct {
+	Kind  string  `json:"kind"` // log | range | agg
+	Fn    string  `json:"fn,omitempty"`
+	Pre   *BWQ    `json:"pre,omitempty"`
+	Suf   *BWQ    `json:"suf,omitempty"`
+	Cmp   *CmpQ   `json:"cmp,omitempty"`
+	Range *RangeQ `json:"range,omitempty"`
+}
+
+func describeBW(b *logql_parser.ByOrWithout) *BWQ {
+	if b == nil {
+		return nil
+	}
+	r := &BWQ{By: strings.ToLower(b.Fn) == "by", Names: []string{}}
+	for _, l := range b.Labels {
+		r.Names = append(r.Names, l.Name)
+	}
+	return r
+}
+func describeCmp(c *logql_parser.Comparison) *CmpQ {
+	if c == nil {
+		return nil
+	}
+	v, err := strconv.ParseFloat(c.Val, 64)
+	if err != nil {
+		return &CmpQ{Op: c.Fn, Val: "NaN"}
+	}
+	return &CmpQ{Op: c.Fn, Val: fhex(v)}
+}
+func describeRange(l *logql_parser.LRAOrUnwrap) *RangeQ {
+	d, _ := time.ParseDuration(l.Time + l.TimeUnit)
+	n := len(l.StrSel.Pipelines)
+	return &RangeQ{Fn: l.Fn, Unwrap: n > 0 && l.StrSel.Pipelines[n-1].Unwrap != nil, Dur: d.Nanoseconds(),
+		Pre: describeBW(l.ByOrWithoutPrefix), Suf: describeBW(l.ByOrWithoutSuffix), Cmp: describeCmp(l.Comparison)}
+}
+
+// describeAggs: nil for the query forms the in-process planner refuses (topk / bottomk / quantile_over_time)
+func describeAggs(query string) *AggQ {
+	script, err := logql_parser.Parse(query)
+	if err != nil {
+		return nil
+	}
+	switch {
+	case script.StrSelector != nil:
+		return &AggQ{Kind: "log"}
+	case script.LRAOrUnwrap != nil:
+		return &AggQ{Kind: "range", Range: describeRange(script.LRAOrUnwrap)}
+	case script.AggOperator != nil:
+		a := script.AggOperator
+		return &AggQ{Kind: "agg", Fn: a.Fn, Pre: describeBW(a.ByOrWithoutPrefix), Suf: describeBW(a.ByOrWithoutSuffix),
+			Cmp: describeCmp(a.Comparison), Range: describeRange(&a.LRAOrUnwrap)}
+	}
+	return nil
 }
 
 func fhex(v float64) string { return strconv.FormatFloat(v, 'x', -1, 64) }
@@ -534,6 +608,7 @@ func planCase(c *Case) (procs []shared.RequestProcessor, matrix bool) {
 		return nil, false
 	}
 	c.Pipes, c.Absent = nil, false
+	c.Aggs = describeAggs(c.Query)
 	if ss := shared.GetStrSelector(script); ss != nil {
 		c.NPipe = len(ss.Pipelines)
 		for i := range ss.Pipelines {
